@@ -271,6 +271,17 @@ def _corner_score(rc: RuleCtx):
     j = sym("j")
     anf.declare_integer(j)
     if isinstance(val, PW):
+        # an early exit with an empty array when there is no knee at all is the same array (no score to compute)
+        rest = []
+        for g_, v_ in val.cases:
+            a_ = single_atom(v_) if isinstance(v_, Rat) else None
+            empty_ = (isinstance(v_, Vec) and not v_.items) or (a_ is not None and a_.name in ("np.array", "np.empty", "np.zeros") and (not a_.args or a_.args[0].is_zero()))
+            if empty_ and (g_implies(g_, canon_sign(sym("K"), OPS["=="])) or g_implies(g_, canon_sign(sym("K") - C(1), OPS["<"]))):
+                continue
+            rest.append((g_, v_))
+        if len(rest) == 1:
+            val = rest[0][1]
+    if isinstance(val, PW):
         raise AnalysisError(f"{fi.qualname}: the score array depends on a condition - shape not recognised")
     try:
         got, ln = elem.element_of_value(ev, val, j)
